@@ -4,143 +4,10 @@
    follows the capacity as described in Properties/C05.v. *)
 From Coq Require Import ZArith List Bool Lia Arith.
 From Coq Require Import ZifyBool.
-From Galene Require Import Lib.Word Model.Cache Proofs.CacheSound.
+From Galene Require Import Lib.Word Lib.Ring Model.Cache Proofs.CacheSound.
 Import ListNotations.
 Open Scope Z_scope.
 Ltac Zify.zify_post_hook ::= Z.div_mod_to_equations.
-
-(* ---------- pure list facts (nat indices) ---------- *)
-Section Lists.
-Context {A : Type}.
-Implicit Types (l a b : list A) (x e : A).
-
-Definition ring (t : nat) l : list A := rev (skipn t l ++ firstn t l).
-
-Lemma set_nth_app a x b e : set_nth (length a) e (a ++ x :: b) = a ++ e :: b.
-Proof. induction a as [|y a IH]; cbn; [reflexivity|]. rewrite IH. reflexivity. Qed.
-
-Lemma split_at t l : (t < length l)%nat ->
-  exists a x b, l = a ++ x :: b /\ length a = t.
-Proof.
-  intros H. exists (firstn t l).
-  destruct (skipn t l) as [|x b] eqn:E.
-  - apply (f_equal (@length A)) in E. rewrite skipn_length in E. cbn in E. lia.
-  - exists x, b. split.
-    + rewrite <- E. symmetry. apply firstn_skipn.
-    + rewrite firstn_length. lia.
-Qed.
-
-Lemma skipn_add i j l : skipn (i + j) l = skipn j (skipn i l).
-Proof. revert l; induction i; intros l; cbn; [reflexivity|]. destruct l; [destruct j; reflexivity|apply IHi]. Qed.
-
-Lemma skipn_app_exact a b : skipn (length a) (a ++ b) = b.
-Proof. induction a; cbn; auto. Qed.
-Lemma firstn_app_exact a b : firstn (length a) (a ++ b) = a.
-Proof. induction a; cbn; [destruct b; reflexivity|]. f_equal. assumption. Qed.
-
-Lemma removelast_snoc l x : removelast (l ++ [x]) = l.
-Proof. apply removelast_last. Qed.
-
-Lemma ring_split a x b : ring (length a) (a ++ x :: b) = rev a ++ rev b ++ [x].
-Proof.
-  unfold ring. rewrite skipn_app_exact, firstn_app_exact.
-  cbn [app rev]. rewrite rev_app_distr, <- app_assoc. reflexivity.
-Qed.
-
-(* Store at slot t, then advance the tail cyclically *)
-Lemma ring_store t l e : (t < length l)%nat ->
-  ring (S t mod length l) (set_nth t e l) = e :: removelast (ring t l).
-Proof.
-  intros Ht. destruct (split_at t l Ht) as (a & x & b & -> & Ha). subst t.
-  rewrite set_nth_app, ring_split.
-  rewrite !app_assoc, removelast_snoc.
-  rewrite app_length. cbn [length].
-  destruct b as [|y b].
-  - cbn [length rev]. replace (length a + 1)%nat with (S (length a)) by lia.
-    rewrite Nat.mod_same by lia.
-    unfold ring. cbn [skipn firstn]. rewrite !app_nil_r, rev_app_distr. reflexivity.
-  - rewrite Nat.mod_small by (cbn [length]; lia).
-    replace (a ++ e :: y :: b) with ((a ++ [e]) ++ y :: b) by (rewrite <- app_assoc; reflexivity).
-    replace (S (length a)) with (length (a ++ [e])) by (rewrite app_length; cbn; lia).
-    rewrite ring_split. rewrite rev_app_distr. cbn [rev app]. reflexivity.
-Qed.
-
-Lemma rev_repeat x n : rev (repeat x n) = repeat x n.
-Proof.
-  induction n; cbn; [reflexivity|]. rewrite IHn.
-  clear. induction n; cbn; [reflexivity|]. f_equal. exact IHn.
-Qed.
-
-(* grow: zero slots are inserted at the tail *)
-Lemma ring_grow t l z k : (t < length l)%nat ->
-  ring t (firstn t l ++ repeat z k ++ skipn t l) = ring t l ++ repeat z k.
-Proof.
-  intros Ht. destruct (split_at t l Ht) as (a & x & b & -> & Ha). subst t.
-  unfold ring. rewrite !firstn_app_exact, !skipn_app_exact.
-  rewrite ?firstn_app_exact, ?skipn_app_exact.
-  rewrite !rev_app_distr, rev_repeat, <- !app_assoc. reflexivity.
-Qed.
-
-Lemma rev_skipn l j : rev (skipn j l) = firstn (length l - j) (rev l).
-Proof.
-  rewrite firstn_rev.
-  destruct (Nat.le_gt_cases j (length l)) as [Hle|Hgt].
-  - replace (length l - (length l - j))%nat with j by lia. reflexivity.
-  - replace (length l - j)%nat with 0%nat by lia. rewrite Nat.sub_0_r.
-    rewrite !skipn_all2 by lia. reflexivity.
-Qed.
-
-(* shrink, tail < k < length: keep [0,t) and the end of the old section *)
-Lemma ring_shrink_mid t l k : (t < k)%nat -> (k < length l)%nat ->
-  ring t (firstn t l ++ skipn (t + length l - k) l) = firstn k (ring t l).
-Proof.
-  intros Htk Hk.
-  assert (Ht : (t < length l)%nat) by lia.
-  destruct (split_at t l Ht) as (a & x & b & -> & Ha). subst t.
-  remember (x :: b) as c eqn:Hc. remember (length (a ++ c)) as n eqn:Hn0.
-  assert (Hn : n = (length a + length c)%nat) by (subst n; apply app_length).
-  clear Hn0 Hc.
-  rewrite firstn_app_exact.
-  replace (length a + n - k)%nat with (length a + (n - k))%nat by lia.
-  rewrite skipn_add, skipn_app_exact.
-  unfold ring. rewrite !skipn_app_exact, !firstn_app_exact.
-  rewrite !rev_app_distr, rev_skipn.
-  rewrite firstn_app, rev_length.
-  rewrite (firstn_all2 (rev a)) by (rewrite rev_length; lia).
-  f_equal. f_equal. lia.
-Qed.
-
-(* shrink, k <= tail: keep the k slots before the tail, tail := 0 *)
-Lemma ring_shrink_low t l k : (k <= t)%nat -> (t < length l)%nat ->
-  ring 0 (firstn k (skipn (t - k) l)) = firstn k (ring t l).
-Proof.
-  intros Hkt Ht.
-  destruct (split_at t l Ht) as (a & x & b & -> & Ha). subst t.
-  unfold ring at 1. cbn [skipn firstn]. rewrite app_nil_r.
-  rewrite ring_split.
-  assert (Hs : skipn (length a - k) (a ++ x :: b) = skipn (length a - k) a ++ x :: b).
-  { rewrite skipn_app. replace (length a - k - length a)%nat with 0%nat by lia. reflexivity. }
-  rewrite Hs.
-  rewrite firstn_app, skipn_length.
-  replace (k - (length a - (length a - k)))%nat with 0%nat by lia.
-  cbn [firstn]. rewrite app_nil_r.
-  rewrite (firstn_all2 (skipn (length a - k) a)) by (rewrite skipn_length; lia).
-  rewrite rev_skipn.
-  rewrite firstn_app, rev_length.
-  replace (k - length a)%nat with 0%nat by lia. cbn [firstn]. rewrite app_nil_r.
-  f_equal. lia.
-Qed.
-
-Lemma ring_In t l x : In x (ring t l) <-> In x l.
-Proof.
-  unfold ring. rewrite <- in_rev, in_app_iff.
-  rewrite <- (firstn_skipn t l) at 3. rewrite in_app_iff. tauto.
-Qed.
-Lemma ring_length t l : length (ring t l) = length l.
-Proof.
-  unfold ring. rewrite rev_length, app_length, Nat.add_comm, <- app_length, firstn_skipn. reflexivity.
-Qed.
-End Lists.
 
 (* ---------- the cache ---------- *)
 Definition tailn (c : cache) : nat := Z.to_nat (c_tail c).
@@ -162,8 +29,6 @@ Proof.
     destruct (0 <? cmp16 (c_last c) s); destruct kf; reflexivity.
 Qed.
 
-Lemma set_nth_length {A} n (x : A) l : length (set_nth n x l) = length l.
-Proof. revert n; induction l; intros [|n]; cbn; auto. Qed.
 
 Lemma view_store c s ts kf m buf : Shape c ->
   let c' := snd (store c s ts kf m buf) in
